@@ -350,7 +350,9 @@ def call_bound(self, st, bm, args, kwargs, node):
         if name in ("union", "copy", "difference", "intersection"):
             return [(st, "val", Top("fs." + name))]
     if isinstance(recv, (int, float)):
-        return [(st, "val", Top("num." + name))]
+        if hasattr(recv, name):
+            return [(st, "val", Top("num." + name))]
+        return self.raise_exc(st, "AttributeError", node, "num-attr", "%r object has no attribute %r" % (type(recv).__name__, name))
     if isinstance(recv, bytes) and name in ("decode", "strip", "lstrip", "rstrip", "startswith", "endswith", "replace", "split", "splitlines") \
             and all(isinstance(a, (bytes, str, int)) or a is None for a in args) and all(isinstance(v, (str, int)) for v in kwargs.values()):
         try:
@@ -873,6 +875,11 @@ def call_builtin(self, st, name, args, kwargs, node):
             return [(st, "val", str(args[0]))]
         if name == "str" and args and hasattr(args[0], "abs_str"):
             return [(st, "val", args[0].abs_str())]
+        if name == "float" and len(args) == 1 and isinstance(args[0], (int, float, str)) and not isinstance(args[0], bool) and getattr(self, "int_sat", 2) > 2:
+            try:
+                return [(st, "val", float(args[0]))]
+            except ValueError:
+                return self.raise_exc(st, "ValueError", node, "float", "float(%r)" % (args[0],))
         if name == "int" and args and isinstance(args[0], (int, str)) and not isinstance(args[0], bool):
             try:
                 return [(st, "val", int(args[0]))]
